@@ -215,9 +215,29 @@ def _observe_exitstack(case):
             "async": {"out": ["returned", ["n"]], "vis": [["yield", ["i", 1]]]}}
 
 
+def _special_cases():
+    """values outside the Lean value model (floats, strings, lists): a fast path that hands a *synchronous* argument
+    to the builtin (whose float summation, say, is compensated) makes the result depend on the flavour"""
+    F = lambda x: ["f", x]  # noqa: E731
+    grid = [
+        ("sum", {}, [F(0.1)] * 10), ("sum", {"start": F(0.5)}, [F(0.1)] * 7), ("sum", {}, [F(1e100), F(1.0), F(-1e100)]),
+        ("sum", {}, [F(1e16), F(1.0), F(1.0), F(-1e16)]), ("sum", {"start": ["l", ["i", 1]]}, [["l", ["i", 2]], ["l", ["i", 3]]]),
+        ("sum", {}, [["i", 1], F(0.1), ["b", True], F(0.2)]),
+        ("min", {}, [F(0.3), F(0.1), F(0.1)]), ("max", {}, [F(0.3), F(0.1), ["i", 1]]),
+        ("sorted", {}, [F(0.3), F(0.1), ["i", 0]]), ("sorted", {"reverse": True}, [["s", "b"], ["s", "a"], ["s", "c"]]),
+        ("list", {}, [F(0.5), ["s", "x"], ["l", ["i", 1]]]), ("tuple", {}, [F(0.5), ["s", "x"]]),
+        ("accumulate", {}, [F(0.1)] * 6), ("nlargest", {"n": 2}, [F(0.3), F(0.1), F(0.2)]),
+        ("nsmallest", {"n": 2}, [["s", "b"], ["s", "a"], ["s", "c"]]),
+    ]
+    for tool, params, script in grid:
+        yield {"tool": tool, "family": "special", "params": params, "srcs": [{"kind": "list", "script": script}], "fns": [],
+               "cons": {"fin": "exhaust"}}
+
+
 def cases(tier, rng):
     L = 2 if tier == "quick" else 3
     yield {"tool": "__all__", "family": "types", "srcs": [], "params": {}}
+    yield from _special_cases()
     yield from _awaitify_cases(tier)
     yield from _groupby_cases(tier)
     yield from _exitstack_cases(tier)
@@ -325,7 +345,7 @@ def observe(case):
 def model_request(case):
     if case.get("family") == "awaitify":
         return {"m": "awaitify", "flavour": case["flavour"], "behs": case["behs"]}
-    if case.get("family") in ("types", "groupby", "exitstack") or case["tool"] in s1.NO_MODEL:
+    if case.get("family") in ("types", "groupby", "exitstack", "special") or case["tool"] in s1.NO_MODEL:
         return None
     return tools.model_request(case)
 
